@@ -32,13 +32,18 @@ TECHNIQUE = 'Lean 4 proof over a hand-written model (abstract file) + correspond
 LEVEL_TEXT = ("Lean 4 theorems over every well-formed particle array, every option combination and both formats "
               "(readers_rebuild_in_any_order, hdf5_roundtrip, npz_roundtrip, roundtrip_meta_{hdf5,npz}, "
               "roundtrip_values_{hdf5,npz}, empty_array_roundtrip_{hdf5,npz}, compress_irrelevant, "
-              "solver_data_roundtrip) about a hand-written model that transcribes the writers, the readers and the ParticleArray "
+              "solver_data_roundtrip; for files holding any list of arrays with distinct names "
+              "hdf5_roundtrip_many [loaded in name order] and npz_roundtrip_many [dump order]; for the version-1 "
+              "reader v1_loads and v1_loads_many [stored stride-1 properties come back with the stored slice, all "
+              "default properties exist, type/stride/default are functions of the name]; 15 theorems) about a hand-written model that transcribes the writers, the readers and the ParticleArray "
               "construction they drive; the model is tied to the code on every run by executing load(dump(...)) on "
               "real npz/hdf5/v1 files against the scratch build of /repo and comparing every property's type, stride, "
               "default and values, constants, output list and solver data; the property's own predicate is evaluated "
               "on the implementation to produce replays.")
 LEVEL_NOTE = ("Partial: the file is an abstract nested dictionary, so numpy/pickle/h5py encodings (incl. compression) "
-              "are trusted containers checked only by the tie; values are opaque; the array-level theorems are stated for a "
-              "file holding one array (several arrays and the version-1 reader are covered by the tie only). Trusted: Lean kernel, the "
+              "are trusted containers checked only by the tie; values are opaque; files with several arrays are covered for distinct "
+              "array names only (equal names overwrite each other in the dictionaries; not stated); the version-1 theorems "
+              "need every STORED property to have stride 1 (otherwise the reader raises or mis-sizes, shown by an example) "
+              "and say nothing about the values of default properties that were not stored beyond their common length. Trusted: Lean kernel, the "
               "hand-written model (700+ cases quick), the stated well-formedness of source arrays.")
 TIMEOUT = {'quick': 900, 'thorough': 3600}
